@@ -84,7 +84,7 @@ def bounds(tier):
 
 
 def plan(tier, seed):
-    chunks = []
+    chunks = [{'k': 'creator_bytes', 'lo': lo, 'hi': lo + 32} for lo in range(0, 256, 32)]
     for i in range(len(VARS)):
         chunks.append({'k': 'pairs', 'first': i, 'creators': ['O', 'B', 'H', 'x'] if tier == 'quick' else CREATORS})
     chunks.append({'k': 'repeat'})
@@ -187,6 +187,11 @@ def run_chunk(chunk):
             _do(res, {'creator': creator, 'sections': [a]}, nontrivial=False)
             for _, b in VARS:
                 _do(res, {'creator': creator, 'sections': [a, b]})
+    elif k == 'creator_bytes':
+        # every value of the one-byte creator id, in front of every section variant
+        for c in range(chunk['lo'], chunk['hi']):
+            for _, a in VARS:
+                _do(res, {'creator': chr(c), 'sections': [a]})
     elif k == 'creator_pairs':
         names = ['PS+fru+mru', 'UDjson', 'UDhex', 'ED', 'LP4.1', '?ZZ', 'EH4', 'DH']
         for creator in CREATORS:
